@@ -19,6 +19,14 @@ CLAIMS = {
         "note": TB + " Not decided: byte-count inequalities, descriptor-kind detection (value-level).",
         "technique": "static analysis: must-pass-through / exactly-once path rules on MIR CFGs + constant folding + who-may-call",
     },
+    "C12": {
+        "text": "Static lock/effect rules: the id-table mutex is acquired poison-tolerantly or has no explicit panic site in any critical "
+                "section; no panic site reachable from Drop of the delivery state or from any Exfiltrator::init (retry-safe, CAS from null); "
+                "Drop unregisters the whole table; no capture cycle / forget on delivery types; with_pipe RAII; re-add guarded by the same "
+                "index being None and written only after Ok. Found and repaired two genuine defects (fixed: entries).",
+        "note": TB + " Not decided: 'exactly as before' as a behavioural equivalence over arbitrary call sequences.",
+        "technique": "static analysis: lock critical-section / panic-site reachability, must-pass-through and control-dependence rules on MIR",
+    },
 }
 
 PENDING = "check under construction in this round (rules designed in DESIGN.md §4); not claimed until the rule set runs clean"
